@@ -33,7 +33,8 @@ META = {
         "srctools.filesys:FileSystemChain.get_system",
     ],
     "bounds": "3 concrete file sets (mixed case + nesting; names that are prefixes of other names and of folder names; names differing "
-              "only in case), each as Virtual, Zip, VPK and directory filesystem; query / folder = symbolic str over {a A b B / \\ . x} "
+              "only in case), each as Virtual, Zip, VPK and directory filesystem, plus one set whose names were given to a VirtualFileSystem "
+              "with backslashes (alone and as a chain member next to forward-slash spellings of the same names); query / folder = symbolic str over {a A b B / \\ . x} "
               "with an exact length per slice (quick: lookup 0..4, walk 0..3; thorough: lookup 0..5, walk 0..5); folder spellings are "
               "canonical relative paths with an optional trailing slash; chains = histories of k add_sys calls (quick k<=3, thorough k<=4; for k>=3 the subfolder indices are concrete per slice) "
               "whose member (index into a pool of 3), subfolder (index into ['', 'a', 'ab']) and priority bit are solver variables "
@@ -60,12 +61,19 @@ SETS = {
     "pre": ["a", "aa", "ab/a", "abb/a"],
     "dup": ["A/b", "a/B", "a/b", "b"],
 }
+# names stored with backslashes (a VirtualFileSystem keeps the spelling it was given; the other backends are built from
+# archives/directories whose tools normalise or forbid the backslash, so this set exists for the virtual backend only)
+VSETS = {
+    "bsl": ["a\\b", "A\\a\\B", "b", "a\\B.a"],
+}
+ALLSETS = dict(SETS, **VSETS)
 BACKENDS = ["virtual", "zip", "vpk", "raw"]
 PREFIXES = ["", "a", "ab"]
 POOLS = {
     "vzk": [("virtual", "mix"), ("zip", "pre"), ("vpk", "dup")],
     "kvz": [("vpk", "mix"), ("virtual", "dup"), ("zip", "dup")],
     "rvz": [("raw", "mix"), ("virtual", "dup"), ("zip", "pre")],
+    "bvz": [("virtual", "bsl"), ("virtual", "dup"), ("zip", "mix")],
 }
 
 
@@ -81,9 +89,14 @@ def _nfold(name):
 def _dedup(s):
     """folded name -> (name, data); among case-only duplicates the last one wins"""
     d = {}
-    for name in SETS[s]:
+    for name in ALLSETS[s]:
         d[_nfold(name)] = (name, _data(s, name))
     return d
+
+
+def _sl(name):
+    """a *concrete* stored name with forward slashes only (what the oracle helpers compare spellings against)"""
+    return name.replace("\\", "/")
 
 
 # ------------------------------------------------------------------ construction (native, in setup)
@@ -150,6 +163,21 @@ def _build_all(engine):
         _ST["fs"][("zip", s)] = z
         _ST["fs"][("vpk", s)] = k
         _ST["fs"][("raw", s)] = r
+    _build_virtual_only(use_model)
+
+
+def _build_virtual_only(use_model):
+    import srctools.filesys as fsm
+    from vf.stubs import listmap
+    for s, names in VSETS.items():
+        v = fsm.VirtualFileSystem({name: _data(s, name) for name in names})
+        if use_model:
+            v._mapping = listmap.ListMap(v._mapping)
+        got = sorted(_nfold(f.path) for f in _stored(v))
+        if got != sorted(_dedup(s)):
+            print(f"HARNESS-ERROR c19: VirtualFileSystem for set {s} holds {got}")
+            raise SystemExit(2)
+        _ST["fs"][("virtual", s)] = v
 
 
 def _stored(fs):
@@ -249,18 +277,18 @@ def _lookup(s, prefix, q, n):
     """entry (name, data) of set s that prefix + '/' + q denotes (folded, last duplicate wins), or None"""
     hit = None
     skip = len(prefix) + 1 if prefix else 0
-    for name in SETS[s]:
+    for name in ALLSETS[s]:
         if skip:
             if _nfold(name[:skip]) != _nfold(prefix) + "/":
                 continue
-        if _same(q, 0, n, name[skip:]):
+        if _same(q, 0, n, _sl(name)[skip:]):
             hit = (name, _data(s, name))
     return hit
 
 
 def _lookup_exact(s, prefix, q):
     full = prefix + "/" + q if prefix else q
-    for name in SETS[s]:
+    for name in ALLSETS[s]:
         if full == name:
             return (name, _data(s, name))
     return None
@@ -367,7 +395,7 @@ def _run_walk(p, n, fset, backend):
         key = lambda x: x                   # noqa
     else:
         ents = _dedup(fset)
-        exp = sorted(k for k, (name, _d) in ents.items() if _inside(p, m, name))
+        exp = sorted(k for k, (name, _d) in ents.items() if _inside(p, m, _sl(name)))
         key = _nfold
     files = list(fs.walk_folder(p))
     got = sorted(key(f.path) for f in files)
@@ -479,7 +507,7 @@ def _run_chain_walk(chain, model, p, n):
         for k, (name, d) in _dedup(s).items():
             if skip and k[:skip] != _nfold(prefix) + "/":
                 continue
-            if _inside(p, m, name[skip:]):
+            if _inside(p, m, _sl(name)[skip:]):
                 grp.append((k[skip:], d))
         groups.append(sorted(grp))
     # walk_folder_repeat: every member's files, members in priority order
@@ -573,12 +601,14 @@ def obligations(tier):
     look_lens = range(0, 5) if quick else range(0, 6)
     walk_lens = range(0, 4) if quick else range(0, 6)
     sl = [{"n": n, "fset": s, "backend": b} for s in SETS for b in BACKENDS for n in look_lens]
+    sl += [{"n": n, "fset": s, "backend": "virtual"} for s in VSETS for n in look_lens]
     obls.append(Obl("lookup", MOD, "h_lookup", slices=_kf(sl, "lookup"), budget_s=900 if quick else 2400, per_path_s=30,
                     desc="existence, fs[name].open_bin(), fs.open_bin(name), fs.open_str(name) agree with the folded-name oracle "
                          "(directory backend: exact spellings)", bound="exact query length per slice over ALPHA"))
     obls.append(Obl("lookup.witness", MOD, "h_lookup_w", slices=[{"n": 3, "fset": "dup", "backend": b} for b in BACKENDS],
                     budget_s=120, per_path_s=30, witness=True, desc="reachability: some spelling finds a file"))
     sl = [{"n": n, "fset": s, "backend": b} for s in SETS for b in BACKENDS for n in walk_lens]
+    sl += [{"n": n, "fset": s, "backend": "virtual"} for s in VSETS for n in walk_lens]
     obls.append(Obl("walk", MOD, "h_walk", slices=sl, budget_s=300 if quick else 2400, per_path_s=30,
                     desc="walk_folder(p) lists exactly the stored files inside p as a folder; every listed name exists and looks up "
                          "to the same bytes; iter(fs) == walk_folder('')", bound="exact folder length per slice over ALPHA, canonical spellings"))
@@ -615,6 +645,7 @@ def obligations(tier):
         sl = chain_slices(["vzk", "rvz"], (1, 2, 3), (1,), (1,))
         sl += [dict(_hist(2, True, True, True, {"m0": m0, "x0": 1}), n=2, k=2, pool="vzk") for m0 in range(3)]
         sl += [dict(_hist(1, True, True, True), n=n, k=1, pool=pool) for n in (2, 3) for pool in POOLS]
+        sl += chain_slices(["bvz"], (2,), (1,), ())
     else:
         sl = chain_slices(list(POOLS), (1, 2, 3), (0, 1, 2, 3), (1,))
         sl += chain_slices(["vzk"], (4,), (), (1,))[:6]
@@ -626,8 +657,9 @@ def obligations(tier):
     if quick:
         wsl = chain_slices(["vzk", "kvz"], (1, 2), (0, 1), ())
         wsl += chain_slices(["vzk", "kvz"], (3,), (), (0,))[::2]
+        wsl += chain_slices(["bvz"], (1, 2), (0, 1), ())
     else:
-        wsl = chain_slices(["vzk", "kvz"], (1, 2, 3), (0, 1, 2, 3), (0, 1))
+        wsl = chain_slices(["vzk", "kvz", "bvz"], (1, 2, 3), (0, 1, 2, 3), (0, 1))
         wsl += chain_slices(["kvz"], (4,), (), (0,))[:6]
     obls.append(Obl("chain_walk", MOD, "h_chain_walk", slices=wsl, budget_s=900 if quick else 3000, per_path_s=30,
                     desc="walk_folder_repeat lists every member's files inside the folder (relative to the member's subfolder) in chain "
